@@ -96,7 +96,7 @@ func (t *memTransport) RoundTrip(req *http.Request) (*http.Response, error) {
 			n, err := body.Read(buf)
 			if n > 0 {
 				// the chunk reaches the wire, or the write fails on a closed connection and the loop ends
-				if mc.Select(false, mc.SendCase(c.reqCh, append([]byte(nil), buf[:n]...)), mc.RecvCase(c.connClosed)) != 0 {
+				if mc.SelectPri(mc.RecvCase(c.connClosed), mc.SendCase(c.reqCh, append([]byte(nil), buf[:n]...))) == 0 {
 					return
 				}
 			}
@@ -131,7 +131,7 @@ func (t *memTransport) RoundTrip(req *http.Request) (*http.Response, error) {
 		if mc.Select(false, mc.RecvCase(mc.Wrap(ctx.Done())), mc.RecvCase(c.finished)) == 0 {
 			c.closeConn()
 		}
-	}).Free = true
+	})
 	switch mc.Select(false, mc.RecvCase(c.hdrCh), mc.RecvCase(mc.Wrap(ctx.Done()))) {
 	case 0:
 	default:
@@ -173,7 +173,7 @@ func (b *memReqBody) hitEOF() {
 		if mc.Select(false, mc.RecvCase(c.connClosed), mc.RecvCase(c.srvDone)) == 0 {
 			cancel()
 		}
-	}).Free = true
+	})
 }
 
 func (b *memReqBody) Read(p []byte) (int, error) {
@@ -196,6 +196,9 @@ func (b *memReqBody) Read(p []byte) (int, error) {
 			}
 			b.left = data.Val
 		default:
+			// net/http: any read error on the connection cancels the connection's
+			// context (connReader.handleReadError), and with it the request's
+			b.cancelCtx()
 			return 0, io.ErrUnexpectedEOF
 		}
 	}
@@ -285,6 +288,12 @@ func (w *memRespWriter) commit() {
 	} else if closed && !sawEOF {
 		w.closeAfter = true
 	}
+	if w.c.isClosed() {
+		// a response head written to a connection the client has already
+		// closed never reaches it
+		w.broken = true
+		return
+	}
 	w.c.status = w.status
 	h := w.snapshot
 	if h.Get("Content-Type") == "" && len(w.pending) > 0 {
@@ -297,7 +306,8 @@ func (w *memRespWriter) commit() {
 func (w *memRespWriter) Flush() {
 	w.commit()
 	if len(w.pending) > 0 {
-		if w.broken || mc.Select(false, mc.SendCase(w.c.respCh, w.pending), mc.RecvCase(w.c.connClosed)) != 0 {
+		// bytes written after the connection was closed never reach the peer
+		if w.broken || mc.SelectPri(mc.RecvCase(w.c.connClosed), mc.SendCase(w.c.respCh, w.pending)) == 0 {
 			w.broken = true
 		}
 		w.pending = nil
